@@ -213,3 +213,64 @@ func SplitDepth(sortedHashes []uint64, df, threshold int, h uint64) (depth, leaf
 		r = s
 	}
 }
+
+// InRemainder reports whether position h lies, at some level of the subdivision by df, in
+// the surplus positions that the last sub-range holds beyond the regular part size (the
+// "alignment remainder" of a range whose size is not a multiple of df).
+func InRemainder(h uint64, df int) bool {
+	r := Top
+	for {
+		subs, ok := Sub(r, df)
+		if !ok {
+			return false
+		}
+		last := subs[df-1]
+		regular := subs[0].To - subs[0].From // size-1 of a regular part
+		if h >= last.From && h-last.From > regular {
+			return true
+		}
+		r, _ = SubContaining(r, df, h)
+	}
+}
+
+// MinGapDomain is the smallest distance between two positions that the generated domain
+// of C07/C08 allows: closer positions (xxhash near-collisions) cannot be separated by a
+// subdivision once the enclosing range is narrower than the divide factor.
+const MinGapDomain = 1 << 12
+
+// TooClose reports whether two of the sorted positions are closer than MinGapDomain.
+func TooClose(sortedHashes []uint64) bool {
+	for i := 1; i < len(sortedHashes); i++ {
+		if sortedHashes[i]-sortedHashes[i-1] < MinGapDomain {
+			return true
+		}
+	}
+	return false
+}
+
+// SpacedOut drops every exact-position id of specs that is closer than MinGapDomain to
+// an id kept before it (generators call it so that drawn universes stay in the domain).
+func SpacedOut(specs []IDSpec) []IDSpec {
+	var kept []IDSpec
+	var pos []uint64 // sorted positions of kept ids
+	for _, sp := range specs {
+		h := sp.H
+		if !sp.IsExact() {
+			h = RankHash(sp.R)
+		}
+		i := sort.Search(len(pos), func(i int) bool { return pos[i] >= h })
+		if i < len(pos) && pos[i] == h && !sp.IsExact() {
+			continue // same pool id again
+		}
+		if sp.IsExact() {
+			if i < len(pos) && pos[i]-h < MinGapDomain || i > 0 && h-pos[i-1] < MinGapDomain {
+				continue
+			}
+		}
+		pos = append(pos, 0)
+		copy(pos[i+1:], pos[i:])
+		pos[i] = h
+		kept = append(kept, sp)
+	}
+	return kept
+}
